@@ -10,7 +10,8 @@ Sources (current working tree of /repo):
       TextEncoding::encode_strict (dispatch + the ASCII limit of Standard/PDFDoc)
   oxidize-pdf-core/src/parser/encoding.rs
       EnhancedDecoder::initialize_encoding_tables: the Latin-1 loop bounds, `windows1252_extensions`,
-      `macroman_chars`;  decode_with_encoding: the `byte < 0x80` split and the replacement character
+      `macroman_chars`, `pdfdoc_chars` (+ the keys removed from the Latin-1 clone);
+      decode_with_encoding: the `byte < 0x80` split and the replacement character
 
 Every function body is matched as a WHOLE against a template (comments stripped, white space
 collapsed) whose only holes are the arm lists / constants; so a change of control flow around the
@@ -419,7 +420,10 @@ T_INIT = (
     "self.windows1252_map = self.latin1_map.clone(); "
     "for (byte, ch) in windows1252_extensions.iter() { self.windows1252_map.insert(*byte, *ch); } "
     "let macroman_chars = [ <<m>> ]; "
-    "for (byte, ch) in macroman_chars.iter() { self.macroman_map.insert(*byte, *ch); } }"
+    "for (byte, ch) in macroman_chars.iter() { self.macroman_map.insert(*byte, *ch); } "
+    "let pdfdoc_chars = [ <<p>> ]; "
+    "self.pdfdoc_map = self.latin1_map.clone(); <<rm>>"
+    "for (byte, ch) in pdfdoc_chars.iter() { self.pdfdoc_map.insert(*byte, *ch); } }"
 )
 
 
@@ -451,8 +455,14 @@ def translate_parser(psrc):
         return None
     w = parse_pairs(g["w"], "windows1252_extensions")
     m = parse_pairs(g["m"], "macroman_chars")
-    if w is None or m is None:
+    pd = parse_pairs(g["p"], "pdfdoc_chars")
+    if w is None or m is None or pd is None:
         return None
+    # `self.pdfdoc_map.remove(&0x9F);` … between the clone and the inserts
+    if not re.fullmatch(r"(self\.pdfdoc_map\.remove\(&" + HEX + r"\); )*", g["rm"]):
+        tie_broken(f"initialize_encoding_tables: unexpected statements before the pdfdoc inserts `{g['rm'][:80]}`")
+        return None
+    removed = [hexval(x) for x in re.findall(r"remove\(&(" + HEX + r")\)", g["rm"])]
     # decode_with_encoding: per-encoding loops `if byte < 0x80 {push(byte as char)} else if let Some(&ch) = self.X_map.get(&byte) …`
     dbody = fn_body(psrc, r"fn decode_with_encoding\([^)]*\)\s*->\s*Result<String, PdfError>\s*\{", "EnhancedDecoder::decode_with_encoding")
     if dbody is None:
@@ -465,8 +475,12 @@ def translate_parser(psrc):
         if frag not in nb:
             tie_broken(f"decode_with_encoding: {enc} branch no longer has the expected shape")
             return None
-    if "EncodingType::PdfDocEncoding => { self.decode_with_encoding(bytes, EncodingType::Latin1, lenient) }" not in nb:
-        tie_broken("decode_with_encoding: PdfDocEncoding branch is no longer `= Latin1`")
+    # PDFDocEncoding consults its map FIRST (it has entries below 0x80), then the ASCII pass-through
+    pfrag = ("EncodingType::PdfDocEncoding => { let mut result = String::with_capacity(bytes.len()); for &byte in bytes { "
+             "if let Some(&ch) = self.pdfdoc_map.get(&byte) { result.push(ch); } else if byte < 0x80 { "
+             "result.push(byte as char); } else if lenient { result.push('\\u{FFFD}'); } else {")
+    if pfrag not in nb:
+        tie_broken("decode_with_encoding: PdfDocEncoding branch no longer has the expected shape")
         return None
     out = []
     # HashMap::insert: a later insert of the same key wins; lookupArms: first arm wins -> reverse.
@@ -480,6 +494,18 @@ def translate_parser(psrc):
     out.append(lean_arms("edWindows1252Arms", arms_of(w, True), "`EnhancedDecoder.windows1252_map`: `windows1252_extensions` inserted over a clone of `latin1_map` (last insert wins ⇒ reversed, then the Latin-1 range)"))
     out.append("")
     out.append(lean_arms("edMacRomanArms", arms_of(m, False), "`EnhancedDecoder.macroman_map`: `macroman_chars` (last insert wins ⇒ reversed)"))
+    out.append("")
+    # pdfdoc_map = clone of latin1_map, minus the removed keys, then `pdfdoc_chars` inserted over it
+    pd_arms = [("point", b, u) for (b, u) in reversed(pd)]
+    keep = [b for b in range(llo, lhi + 1) if b not in removed]
+    i = 0
+    while i < len(keep):
+        j = i
+        while j + 1 < len(keep) and keep[j + 1] == keep[j] + 1:
+            j += 1
+        pd_arms.append(("range", keep[i], keep[j]))
+        i = j + 1
+    out.append(lean_arms("edPdfDocArms", pd_arms, "`EnhancedDecoder.pdfdoc_map`: `pdfdoc_chars` inserted (last insert wins ⇒ reversed) over a clone of `latin1_map` from which the keys " + ", ".join(f"0x{r:02X}" for r in removed) + " were removed (⇒ the Latin-1 range split around them)"))
     out.append("")
     out.append("/-- `decode_with_encoding`: bytes below this are pushed as themselves before any map is consulted. -/")
     out.append("def edAsciiSplit : Nat := 0x80")
